@@ -61,6 +61,10 @@ def plain_calls():
         ('edit_config-text', 'default', lambda x, y: ('edit_config', dict(config=x, format='text', target='candidate')), 1),
         ('edit_config-xml', 'default', lambda x, y: ('edit_config', dict(config=cfg(x), target='running')), 2),
         ('edit_config-xmlstr', 'default', lambda x, y: ('edit_config', dict(config=etree.tostring(cfg(x)).decode(), target='running')), 2),
+        # the same configuration as XML TEXT that declares the value as an entity in its own internal DTD subset and refers to it
+        ('edit_config-xmlstr-dtd', 'default', lambda x, y: ('edit_config', dict(
+            config='<!DOCTYPE config [<!ENTITY u "%s">]>' % ''.join(('&#38;#%d;' % ord(ch)) if (ch in '&<' or ord(ch) < 32) else (('&#%d;' % ord(ch)) if ch in '%"' else ch) for ch in x)
+            + etree.tostring(cfg('ZZENTITYZZ')).decode().replace('ZZENTITYZZ', '&u;'), target='running')), 2),
         ('get-xpath', 'default', lambda x, y: ('get', dict(filter=('xpath', x))), 1),
         ('get-xpath-ns', 'default', lambda x, y: ('get', dict(filter=('xpath', ({'p': y or 'urn:p'}, x)))), 1),
         ('get_config-url', 'default', lambda x, y: ('get_config', dict(source='ftp://h/' + x)), 1),
@@ -242,6 +246,34 @@ class C07(Check):
         return [{'kind': 'call', 'call': i % ncalls, 'x': nasty(rng), 'y': nasty(rng)} for i in range(5000)]
 
     def run_impl(self, case):
+        if case.get('kind') == 'call' and case.get('name', '') == 'edit_config-xmlstr-dtd' or (case.get('kind') == 'call' and call_of(case)[0] == 'edit_config-xmlstr-dtd'):
+            # DTD / entity handling lives in C code: a crash there must not take the check down with it
+            import os
+            import json as _json
+            r, w = os.pipe()
+            pid = os.fork()
+            if pid == 0:
+                try:
+                    os.close(r)
+                    out = self._run_impl(case)
+                    os.write(w, _json.dumps(out, default=str).encode())
+                finally:
+                    os._exit(0)
+            os.close(w)
+            data = b''
+            while True:
+                chunk = os.read(r, 65536)
+                if not chunk:
+                    break
+                data += chunk
+            os.close(r)
+            _, status = os.waitpid(pid, 0)
+            if os.WIFSIGNALED(status) or not data:
+                return {'crashed': os.WTERMSIG(status) if os.WIFSIGNALED(status) else -1}
+            return _json.loads(data.decode())
+        return self._run_impl(case)
+
+    def _run_impl(self, case):
         k = case['kind']
         if k == 'row':
             r = self._rows[case['i']]
@@ -417,6 +449,8 @@ class C07(Check):
 
     def oracle(self, case, io):
         k = case['kind']
+        if isinstance(io, dict) and 'crashed' in io:
+            return ('C07:request-building-crashed:' + call_of(case)[0], 'building the request killed the process (signal %s): caller text with an internal DTD subset, entity value %r' % (io['crashed'], case.get('x', '')[:40]))
         if k == 'row':
             v = OS.row_violation(io, ('shape', 'op-element', 'param-order', 'caller-string', 'enumeration'))
             if v:
@@ -485,8 +519,8 @@ class C07(Check):
             if want == 0:
                 continue
             n = sum(1 for v in hay if tail(v, sval))
-            expect = 3 if name.startswith('edit_config-rich-') else (2 if name in ('edit_config-xml', 'edit_config-xmlstr', 'rpc-element', 'edit_config-bare-xml') else 1)
-            if sname == 'y' and (name.startswith('edit_config-rich-') or name in ('edit_config-xml', 'edit_config-xmlstr', 'rpc-element', 'edit_config-bare-xml')):
+            expect = 3 if name.startswith('edit_config-rich-') else (2 if name in ('edit_config-xml', 'edit_config-xmlstr', 'edit_config-xmlstr-dtd', 'rpc-element', 'edit_config-bare-xml') else 1)
+            if sname == 'y' and (name.startswith('edit_config-rich-') or name in ('edit_config-xml', 'edit_config-xmlstr', 'edit_config-xmlstr-dtd', 'rpc-element', 'edit_config-bare-xml')):
                 continue
             if x == y:
                 continue
